@@ -51,13 +51,21 @@ public:
      * \brief Setter for the flags.
      * \param new_flags The new flags.
      */
-    void set_flags(uint8_t new_flags) { header_.flags = Endian::host_to_be(new_flags << 24); }
+    void set_flags(uint8_t new_flags) {
+        header_.flags = Endian::host_to_be<uint32_t>(
+            (Endian::be_to_host(header_.flags) & 0x00ffffff) | (static_cast<uint32_t>(new_flags) << 24)
+        );
+    }
 
     /**
      * \brief Setter for the VNI.
      * \param new_vni The new VNI.
      */
-    void set_vni(small_uint<24> new_vni) { header_.vni = Endian::host_to_be(new_vni << 8); }
+    void set_vni(small_uint<24> new_vni) {
+        header_.vni = Endian::host_to_be<uint32_t>(
+            (Endian::be_to_host(header_.vni) & 0xff) | (static_cast<uint32_t>(new_vni) << 8)
+        );
+    }
 
     /**
      * \brief Returns the VXLAN frame's header length.
